@@ -3,7 +3,7 @@
 
 use crate::dpll::{Dpll, Outcome, Policy};
 use crate::prng::{Digest, Rng};
-use crustabri::sat::{Assignment, CadicalSolver, Literal, SatSolver, SolvingListener, SolvingResult};
+use crustabri::sat::{Assignment, Literal, SatSolver, SolvingListener, SolvingResult};
 use serde::{Deserialize, Serialize};
 use std::cell::RefCell;
 use std::rc::Rc;
@@ -109,11 +109,40 @@ pub fn new_hub(cfg: OracleCfg) -> Hub {
 /// Panic payload used when the hub's hard SAT-call budget is exceeded (C18 liveness).
 pub struct BudgetExceeded;
 
+/// The mirror used to cross-check SimSat's verdicts (and to decide under the `Cadical` / `Steer`
+/// policies): the `cadical` crate directly, NOT crustabri's `CadicalSolver` wrapper, so that a
+/// defect in the wrapper cannot make the harness itself wrong.
+#[derive(Default)]
+struct RawCadical {
+    s: cadical::Solver,
+    reserved: i32,
+}
+
+impl RawCadical {
+    fn add_clause(&mut self, cl: Vec<Literal>) {
+        self.s.add_clause(cl.iter().map(|l| isize::from(*l) as i32));
+    }
+    fn reserve(&mut self, n: usize) {
+        self.reserved = self.reserved.max(n as i32);
+    }
+    fn solve_under_assumptions(&mut self, a: &[Literal]) -> SolvingResult {
+        match self.s.solve_with(a.iter().map(|l| isize::from(*l) as i32)) {
+            Some(true) => {
+                let mv = self.s.max_variable();
+                let n = mv.max(self.reserved);
+                SolvingResult::Satisfiable(Assignment::verif_new((1..=n).map(|i| if i <= mv { self.s.value(i) } else { None }).collect()))
+            }
+            Some(false) => SolvingResult::Unsatisfiable,
+            None => SolvingResult::Unknown,
+        }
+    }
+}
+
 pub struct SimSat {
     hub: Hub,
     inst: usize,
     dpll: Dpll,
-    mirror: CadicalSolver,
+    mirror: RawCadical,
     reserved: usize,
     max_assumed: usize,
     listeners: Vec<Box<dyn SolvingListener>>,
@@ -130,7 +159,7 @@ impl SimSat {
             hub,
             inst,
             dpll: Dpll::default(),
-            mirror: CadicalSolver::default(),
+            mirror: RawCadical::default(),
             reserved: 0,
             max_assumed: 0,
             listeners: vec![],
